@@ -15,6 +15,7 @@ func init() {
 			{"C01.overwrite-flag", ruleC01OverwriteFlag, ""},
 			{"C01.split", ruleC01Split, ""},
 			{"C01.addressing", ruleC01Addressing, ""},
+			{"C01.kernel", ruleKernelShapes("(*pogreb.index).bucketIndex", "(*pogreb.bucket).del", "(*pogreb.slotWriter).insert", "(*pogreb.slotWriter).write", "(*pogreb.index).createOverflowBucket", "(*pogreb.bucketIterator).next", "(*pogreb.index).newBucketIterator", "(pogreb.slot).kvSize", "(*pogreb.datalog).readKey", "(*pogreb.datalog).readKeyValue"), ""},
 		},
 		Explanation: "Decides structural necessary conditions of map semantics of the hash index, for all key sets and hash layouts at once: (chain-exit) no lookup/insert/delete/scan/compaction walk of a bucket chain can end before end-of-chain, an error or a key/record match; (match-equal) a key callback reports a match only behind bytes.Equal(sought key, key stored in the log for that slot); (count, overwrite-flag) index.numKeys moves +1 exactly on insertion of a new key and -1 exactly on a removal, after the bucket write; (split) a split updates the addressing state before redistributing, publishes numBuckets after both writes, frees old overflow buckets after the walk; (addressing) every walk starts at bucketIndex(hash of the key) and Put stores the slot with that hash and the location the log append returned. NOT decided: equality with a reference map for all histories, the redistribution arithmetic itself, the hash function.",
 		Assumptions: commonAssumptions,
@@ -118,6 +119,7 @@ func init() {
 	register("C05", &propDef{
 		Rules: []ruleDef{
 			{"C05.seal-first", ruleC05SealFirst, ""},
+			{"C05.pick-seal-atomic", ruleC05PickSealAtomic, ""},
 			{"C05.swap-never-sealed", ruleC05SwapNeverSealed, ""},
 			{"C05.no-append-to-sealed", ruleC15CurSegLive, ""},
 			{"C05.liveness", ruleC05Liveness, ""},
@@ -138,6 +140,7 @@ func init() {
 			{"C03.compact-complete", ruleC03CompactComplete, ""},
 			{"C03.copy-before-repoint", ruleC05Liveness, ""},
 			{"C03.older-first", ruleC03OlderFirst, ""},
+			{"C03.pick-seal-atomic", ruleC05PickSealAtomic, ""},
 			{"C03.sequence-monotonic", ruleC03SequenceMonotonic, ""},
 			{"C03.write-ahead", ruleC03WriteAhead, ""},
 			{"C03.tail-handling", ruleC08Gates, ""},
@@ -153,6 +156,7 @@ func init() {
 			{"C11.chain-drain", ruleC11Drain, ""},
 			{"C11.split-forward", ruleC01Split, ""},
 			{"C11.copied", ruleC14NoAliasOut, ""},
+			{"C11.kernel", ruleKernelShapes("(*pogreb.bucketIterator).next", "(*pogreb.index).newBucketIterator", "(*pogreb.datalog).readKeyValue", "(*pogreb.index).bucketIndex"), ""},
 		},
 		Explanation: "Decides: the scan walk of a bucket chain cannot end before the end of the chain; the scan position advances by exactly one bucket after a successful fetch of that bucket and is compared with index.numBuckets re-read on every iteration; ErrIterationDone only at the live bound with an empty queue; queued pairs are (copies of) results #0/#1 of readKeyValue for the visited slot; a whole chain is drained inside one shared section of DB.mu with ItemIterator.mu held; a split appends exactly one bucket, updates addressing before redistribution and publishes numBuckets last. NOT decided: exactly-once on every quiescent state; at-least-once under every interleaving.",
 		Assumptions: commonAssumptions,
@@ -187,6 +191,7 @@ func init() {
 			{"C18.names", ruleC18Names, ""},
 			{"C18.gob", ruleC18Gob, ""},
 			{"C18.name-families", ruleC15NameFamilies, ""},
+			{"C18.addressing", ruleKernelShapes("(*pogreb.index).bucketIndex", "(*pogreb.bucketIterator).next", "(*pogreb.index).newBucketIterator", "pogreb.encodedRecordSize", "(pogreb.slot).kvSize", "(*pogreb.datalog).readKey", "(*pogreb.datalog).readKeyValue"), ""},
 		},
 		Explanation: "Decides that the writer-side and reader-side tables of the current code equal the frozen tables of the documented/pinned format v2: header (signature bytes, version 2 LE @8, 512 bytes, written into every new file and checked on every existing one), bucket (31 slots x 16 bytes: hash u32@0, segmentID u16@4, keySize u16@6, valueSize u32@8, offset u32@12, LE; overflow pointer u64 LE @496; bucket i at 512+512*i), record layout (as C08), file names (%05d-%d.psg and the legacy form, .pmt, main.pix, overflow.pix, index.pmt, db.pmt, lock, .bac), gob metadata field names and types, MurmurHash3 constants. Layouts are extracted from the SSA of the marshal/unmarshal functions by an abstract interpreter for slice positions, not matched textually. NOT decided: opening a golden corpus (dynamic); gob wire compatibility beyond field names/types; bucket-addressing arithmetic.",
 		Assumptions: commonAssumptions,
@@ -224,6 +229,7 @@ func init() {
 			{"C16.reject-before-effect", ruleC16Reject, ""},
 			{"C16.match-equal", ruleC01MatchEqual, ""},
 			{"C16.layout", ruleRecordLayout, ""},
+			{"C16.sizes", ruleKernelShapes("pogreb.encodedRecordSize", "(pogreb.slot).kvSize", "(*pogreb.datalog).readKey", "(*pogreb.datalog).readKeyValue"), ""},
 		},
 		Explanation: "Decides: (narrowing) every narrowing or sign-changing conversion of a non-constant integer in package pogreb is one of the reviewed sites with a stated bound (guard in Put, bounded decoded source, segment-size guard, comparison idiom backed by the full key comparison), no arithmetic on non-constants is carried out in a type narrower than 32 bits except the reviewed index.level; (const-relations) MaxKeyLength = 65535 fits the 16-bit fields, MaxValueLength = 512 MiB fits the 31-bit field, a maximal record fits the 32-bit offsets, segment ids fit 16 bits; (reject-before-effect) every call made by Put (hashing, locking, log append, index update) is reachable only after both limits were checked against those constants; look-ups compare the full key after the truncated length compare (match-equal); record length fields are laid out as documented (layout). NOT decided: byte-exact round trip of every admissible size through restart and recovery.",
 		Assumptions: commonAssumptions,
